@@ -35,7 +35,13 @@ pub trait VIterExt: Iterator + Sized {
         ensures r.items() == self.remaining() + into_iter_seq(other);
     fn v_interleave<J: Iterator<Item = Self::Item>>(self, other: J) -> (r: VSeqIter<Self::Item>)
         ensures r.items() == interleave_seq(self.remaining(), other.remaining());
-    fn v_any<F: FnMut(Self::Item) -> bool>(self, f: F) -> (r: bool);
+    // Iterator::any with a closure whose contract is known: true iff the closure accepts some yielded item
+    fn v_any<F: FnMut(Self::Item) -> bool>(self, f: F) -> (r: bool)
+        requires forall|k: int| 0 <= k < self.remaining().len() ==> f.requires((#[trigger] self.remaining()[k],))
+        ensures
+            // `any` calls the closure on the items in order until it answers true: a false result means it answered false for every item
+            r ==> exists|k: int| 0 <= k < self.remaining().len() && f.ensures((#[trigger] self.remaining()[k],), true),
+            !r ==> forall|k: int| 0 <= k < self.remaining().len() ==> f.ensures((#[trigger] self.remaining()[k],), false);
     fn v_cloned<'a, T: Clone + 'a>(self) -> (r: VSeqIter<T>) where Self: Iterator<Item = &'a T>
         ensures r.items().len() == self.remaining().len();
     fn v_fold<B, F: FnMut(B, Self::Item) -> B>(self, init: B, f: F) -> (r: B);
